@@ -320,7 +320,7 @@ func c20registry() []c20entry {
 	for _, bx := range []struct {
 		n string
 		b orb.Bound
-	}{{"containing box", c20box}, {"cutting box", c20cut}} {
+	}{{"containing box", c20box}, {"cutting box", c20cut}, {"box around the origin only", orb.Bound{Min: orb.Point{-1, -1}, Max: orb.Point{0.5, 0.5}}}} {
 		b := bx.b
 		add(c20entry{name: "clip.Geometry (" + bx.n + ")", covers: []string{"clip.Geometry", "clip.Collection"},
 			call:    func(g orb.Geometry) interface{} { return clip.Geometry(b, g) },
